@@ -74,7 +74,8 @@ var triggers = []trigger{
 		// MVP-6.1+ with two or more units: a conditional branch waiting for a slow
 		// operand (forwarded from a load) lets younger instructions run ahead; one
 		// that raises an error (div/rem by zero, undefined label) fails the run at
-		// once, one that redirects fetch (j/jal/jalr) derails it.
+		// once, one that redirects fetch (j/jal/jalr, a second conditional branch)
+		// derails it.
 		id: "KF-W7", props: wmProps,
 		match: func(c *core.Case, f *features, class string) bool {
 			return c.Cfg.V >= mach.MVP61 && c.Cfg.Parallelism() >= 2 && f.takenBranches >= 1 && f.shadowHasTrap
